@@ -1,4 +1,4 @@
 (* Extraction of the executable model and specification of C13 (ExtrOcamlBasic only). *)
-From MptV Require Import Base.Mem C13.QueueModel C13.QueueSpec.
+From MptV Require Import Base.Mem C13.QueueModel C13.QueueSpec C13.EncQueueModel C13.EncQueueSpec.
 Require Import ExtrOcamlBasic.
-Extraction "c13_model.ml" qrun srun abs mkq qinvb.
+Extraction "c13_model.ml" qrun srun abs mkq qinvb erun esrun eabs mkeq.
